@@ -214,8 +214,12 @@ def cellOf (obs samp : List Id) (rows : List (List α)) (o s : Id) : Option α :
 def mdClause [DecidableEq α] (ids : List Id) (a b : Option (List (MdE α))) : Bool :=
   ids.all (fun id => entryEq (entryOf ids a id) (entryOf ids b id))
 
-def gmdClause (a : List (String × String × String)) (b : List (String × Option String)) : Bool :=
-  a.length == b.length && a.all (fun kv => b.lookup kv.1 == some (some kv.2.2))
+/-- the text payload of every group-metadata entry comes back (entries given as (data_type, payload)
+pairs `a`, and entries the table holds as bare text `bare`) -/
+def gmdClause (a : List (String × String × String)) (bare : List (String × String))
+    (b : List (String × Option String)) : Bool :=
+  a.length + bare.length == b.length && a.all (fun kv => b.lookup kv.1 == some (some kv.2.2)) &&
+  bare.all (fun kv => b.lookup kv.1 == some (some kv.2))
 
 /-- The clauses of the property, on a loader's result `r` for the table `t` written with
 `generated_by = genBy` and (when supplied) `creation_date = date`. -/
@@ -234,8 +238,8 @@ def clauses [DecidableEq α] [DecidableEq δ] (t : Src α) (genBy : String) (dat
      ("id", l.tableId == (match t.tableId with | some s => s | none => "No Table ID")),
      ("generated-by", l.generatedBy == genBy),
      ("creation-date", match date with | some d => l.createDate == .date d | none => true),
-     ("observation-group-metadata", gmdClause t.ogmd l.ogmd),
-     ("sample-group-metadata", gmdClause t.sgmd l.sgmd)]
+     ("observation-group-metadata", gmdClause t.ogmd t.ogmdBare l.ogmd),
+     ("sample-group-metadata", gmdClause t.sgmd t.sgmdBare l.sgmd)]
 
 def holds [DecidableEq α] [DecidableEq δ] (t : Src α) (genBy : String) (date : Option δ)
     (r : Except Err (Loaded α δ)) : Bool :=
